@@ -41,26 +41,26 @@ func (c *CacheConfig) setRestartNeededProps() {
 const maxLockShards = 1 << 20
 
 func (c *CacheConfig) verify() error {
-	if c.MaxCacheSize.Read().Bytes() <= 0 {
+	if c.MaxCacheSize.pending().Bytes() <= 0 {
 		return fmt.Errorf("cache.max_cache_size must be greater than 0")
 	}
-	if c.CleanupInterval.Read().Cast() <= 0 {
+	if c.CleanupInterval.pending().Cast() <= 0 {
 		return fmt.Errorf("cache.cleanup_interval must be greater than 0")
 	}
-	if c.Memory.MemoryBudgetPercent.Read() < 0 || c.Memory.MemoryBudgetPercent.Read() > 100 {
+	if c.Memory.MemoryBudgetPercent.pending() < 0 || c.Memory.MemoryBudgetPercent.pending() > 100 {
 		return fmt.Errorf("cache.memory.memory_budget_percent must be between 0 and 100")
 	}
-	if c.LockShards.Read() < 1 {
+	if c.LockShards.pending() < 1 {
 		return fmt.Errorf("cache.lock_shards must be at least 1")
 	}
-	if c.LockShards.Read() > maxLockShards {
+	if c.LockShards.pending() > maxLockShards {
 		// The lock table is allocated up front: a count like 1e12 makes the next start run out of memory.
 		return fmt.Errorf("cache.lock_shards must be at most %d", maxLockShards)
 	}
-	if c.File.Dir.Read() == "" {
+	if c.File.Dir.pending() == "" {
 		return fmt.Errorf("cache.file.dir cannot be empty")
 	}
-	if c.Type.Read() != CacheTypeFile && c.Type.Read() != CacheTypeMemory {
+	if c.Type.pending() != CacheTypeFile && c.Type.pending() != CacheTypeMemory {
 		return fmt.Errorf("cache.type must be either 'file' or 'memory'")
 	}
 	return nil
